@@ -35,8 +35,8 @@ type histWorld struct {
 	mu       sync.Mutex
 	fwd      erpc.Session // proxy -> backend
 	fwdConn  *Conn
-	fwdConnP *Conn // the proxy's end of the backend connection        // backend end of the proxy-backend connection
-	fwdNoise bool // the forwarder lets other replies be received before it hands a finished call back
+	fwdConnP *Conn        // the proxy's end of the backend connection        // backend end of the proxy-backend connection
+	fwdNoise bool         // the forwarder lets other replies be received before it hands a finished call back
 	viaProxy erpc.Session // caller -> proxy
 	direct   erpc.Session // caller -> backend
 	closed   erpc.Session // a session that was closed at start
